@@ -69,7 +69,7 @@ func fnIndex(fn string) int {
 type local struct {
 	evals   int64
 	classes map[string]int64 // fn/type/outcome
-	fast    [5][8][2]int64   // fn x type x {exact, overflow}
+	fast    [5][16][2]int64  // fn x type x {exact, overflow}
 	viols   []viol
 }
 
@@ -84,7 +84,7 @@ func (l *local) fold() {
 			}
 		}
 	}
-	l.fast = [5][8][2]int64{}
+	l.fast = [5][16][2]int64{}
 }
 
 type viol struct {
@@ -341,6 +341,11 @@ func runType[T safemath.Integer](c *vf.Ctx, s spec, workers int) {
 	}
 	newLocal := func() *local { return &local{classes: map[string]int64{}} }
 	bnd := boundaries[T](s)
+	// defined types share the instantiation shape with their predeclared twins: a quarter of the sampled work suffices
+	scale := 1
+	if s.idx >= 8 {
+		scale = 4
+	}
 	switch {
 	case s.bits == 8:
 		// exhaustive: all pairs, all shifts
@@ -367,7 +372,7 @@ func runType[T safemath.Integer](c *vf.Ctx, s spec, workers int) {
 			vf.Parallel(workers, workers, func(w int) {
 				l := newLocal()
 				rng := c.Rand(fmt.Sprintf("%s/%d", s.name, w))
-				n := (1 << 20) / workers
+				n := (1 << 20) / workers / scale
 				for i := 0; i < n; i++ {
 					if i%4 == 0 {
 						x, y := factorPair[T](s, rng)
@@ -381,14 +386,16 @@ func runType[T safemath.Integer](c *vf.Ctx, s spec, workers int) {
 			// all values x all shifts (2^24 calls) is cheap enough for quick: every 1st value
 			vf.Parallel(16, workers, func(w int) {
 				l := newLocal()
-				for xi := w; xi < 65536; xi += 16 {
+				for xi := w; xi < 65536; xi += 16 * scale {
 					for sh := 0; sh < 256; sh++ {
 						shift(l, s, T(xi), uint8(sh))
 					}
 				}
 				merge(l)
 			})
-			c.Count("exhaustive_subspaces", 1) // 16-bit shifts
+			if scale == 1 {
+				c.Count("exhaustive_subspaces", 1) // 16-bit shifts
+			}
 		} else {
 			// a quarter of the 2^32 pairs: every x with every y of a seeded residue class mod 4, plus every x
 			// with every boundary y (the hive.go error path costs ~3 us per overflowing call, which makes the
@@ -400,7 +407,7 @@ func runType[T safemath.Integer](c *vf.Ctx, s spec, workers int) {
 			vf.Parallel(256, workers, func(w int) {
 				l := newLocal()
 				for xi := w * 256; xi < (w+1)*256; xi++ {
-					for yi := off; yi < 65536; yi += 4 {
+					for yi := off; yi < 65536; yi += 4 * scale {
 						pair(l, s, T(xi), T(yi))
 					}
 					for _, y := range bnd {
@@ -425,7 +432,7 @@ func runType[T safemath.Integer](c *vf.Ctx, s spec, workers int) {
 			}
 		}
 		merge(l)
-		total := c.Pick(1<<18, 1<<22)
+		total := c.Pick(1<<18, 1<<22) / scale
 		vf.Parallel(workers, workers, func(w int) {
 			l := newLocal()
 			rng := c.Rand(fmt.Sprintf("%s/%d", s.name, w))
@@ -574,6 +581,22 @@ func replay(c *vf.Ctx) {
 		do(func() { pair(l, specs[6], xi, yi); shift(l, specs[6], xi, uint8(yi)) })
 	case "uint64":
 		do(func() { pair(l, specs[7], xu, yu); shift(l, specs[7], xu, uint8(yu)) })
+	case "defined-int8":
+		do(func() { pair(l, specs[8], dInt8(xi), dInt8(yi)); shift(l, specs[8], dInt8(xi), uint8(yi)) })
+	case "defined-uint8":
+		do(func() { pair(l, specs[9], dUint8(xu), dUint8(yu)); shift(l, specs[9], dUint8(xu), uint8(yu)) })
+	case "defined-int16":
+		do(func() { pair(l, specs[10], dInt16(xi), dInt16(yi)); shift(l, specs[10], dInt16(xi), uint8(yi)) })
+	case "defined-uint16":
+		do(func() { pair(l, specs[11], dUint16(xu), dUint16(yu)); shift(l, specs[11], dUint16(xu), uint8(yu)) })
+	case "defined-int32":
+		do(func() { pair(l, specs[12], dInt32(xi), dInt32(yi)); shift(l, specs[12], dInt32(xi), uint8(yi)) })
+	case "defined-uint32":
+		do(func() { pair(l, specs[13], dUint32(xu), dUint32(yu)); shift(l, specs[13], dUint32(xu), uint8(yu)) })
+	case "defined-int64":
+		do(func() { pair(l, specs[14], dInt64(xi), dInt64(yi)); shift(l, specs[14], dInt64(xi), uint8(yi)) })
+	case "defined-uint64":
+		do(func() { pair(l, specs[15], dUint64(xu), dUint64(yu)); shift(l, specs[15], dUint64(xu), uint8(yu)) })
 	}
 	_ = zu
 	for _, v := range l.viols {
@@ -585,7 +608,22 @@ func replay(c *vf.Ctx) {
 }
 
 var specs = []spec{{"int8", 8, true, 0}, {"uint8", 8, false, 1}, {"int16", 16, true, 2}, {"uint16", 16, false, 3},
-	{"int32", 32, true, 4}, {"uint32", 32, false, 5}, {"int64", 64, true, 6}, {"uint64", 64, false, 7}}
+	{"int32", 32, true, 4}, {"uint32", 32, false, 5}, {"int64", 64, true, 6}, {"uint64", 64, false, 7},
+	// defined types (the functions are generic over ~T; type switches on predeclared types would misclassify these)
+	{"defined-int8", 8, true, 8}, {"defined-uint8", 8, false, 9}, {"defined-int16", 16, true, 10}, {"defined-uint16", 16, false, 11},
+	{"defined-int32", 32, true, 12}, {"defined-uint32", 32, false, 13}, {"defined-int64", 64, true, 14}, {"defined-uint64", 64, false, 15}}
+
+// defined (named) integer types, as user code has them (e.g. type Mana uint64)
+type (
+	dInt8   int8
+	dUint8  uint8
+	dInt16  int16
+	dUint16 uint16
+	dInt32  int32
+	dUint32 uint32
+	dInt64  int64
+	dUint64 uint64
+)
 
 func run(c *vf.Ctx) {
 	if c.Replay != "" {
@@ -593,7 +631,7 @@ func run(c *vf.Ctx) {
 		return
 	}
 	w := runtime.NumCPU()
-	c.SetRule("each evaluation is one call of a safemath function compared with exact arithmetic; 8-bit operand pairs and shifts and 16-bit shifts are enumerated completely; 16-bit pairs: boundary set squared + 2^20 seeded pairs (quick) or every x with every y of one residue class mod 4 and every boundary y (thorough), 32/64-bit use boundary values squared plus seeded operands biased to factor pairs at representability borders; distinct_nontrivial counts distinct (function, type, outcome class in {exact, overflow, divzero}) combinations actually observed")
+	c.SetRule("each evaluation is one call of a safemath function (instantiated with the eight predeclared integer types and with eight defined types such as `type dUint64 uint64`) compared with exact arithmetic; 8-bit operand pairs and shifts and 16-bit shifts are enumerated completely; 16-bit pairs: boundary set squared + 2^20 seeded pairs (quick) or every x with every y of one residue class mod 4 and every boundary y (thorough), 32/64-bit use boundary values squared plus seeded operands biased to factor pairs at representability borders; distinct_nontrivial counts distinct (function, type, outcome class in {exact, overflow, divzero}) combinations actually observed")
 	runType[int8](c, specs[0], w)
 	runType[uint8](c, specs[1], w)
 	runType[int16](c, specs[2], w)
@@ -602,6 +640,14 @@ func run(c *vf.Ctx) {
 	runType[uint32](c, specs[5], w)
 	runType[int64](c, specs[6], w)
 	runType[uint64](c, specs[7], w)
+	runType[dInt8](c, specs[8], w)
+	runType[dUint8](c, specs[9], w)
+	runType[dInt16](c, specs[10], w)
+	runType[dUint16](c, specs[11], w)
+	runType[dInt32](c, specs[12], w)
+	runType[dUint32](c, specs[13], w)
+	runType[dInt64](c, specs[14], w)
+	runType[dUint64](c, specs[15], w)
 	run64(c, w)
 	c.SetExhaustive(false)
 	c.Extra("exhaustive_note", "8-bit pair/shift spaces and 16-bit shift spaces enumerated completely on every run; 16-bit pairs and wider types sampled (thorough: a quarter of all 16-bit pairs)")
